@@ -244,13 +244,21 @@ def gen_operand(rng, shape, item, kind='rand', rep=None, denom=()):
         else:
             it = [rng.choice(VALS) for _ in range(isz)]
         vals.append(it)
-    return {'shape': list(shape), 'item': list(item), 'denom': list(denom), 'vals': vals,
-            'mask': make_mask(rng, shape, rep), 'mrep': rep}
+    d = {'shape': list(shape), 'item': list(item), 'denom': list(denom), 'vals': vals,
+         'mask': make_mask(rng, shape, rep), 'mrep': rep}
+    if len(item) == 1 and not denom and rng.random() < 0.15:
+        # integer data where the class admits it (generic Vector, Pair): int x float must give the float answer
+        # (seeded change C16-C: the result buffer of cross_3x3 took the dtype of the left operand)
+        d['vals'] = [[float(rng.choice([-2, -1, 0, 1, 1, 2, 3])) for _ in range(isz)] for _ in range(n)]
+        d['int'] = True
+    return d
 
 
 def build(d, cls):
     shape, item, denom = tuple(d['shape']), tuple(d['item']), tuple(d.get('denom', ()))
     arr = np.array(d['vals'], dtype=float).reshape(shape + item + denom)
+    if d.get('int') and getattr(cls, 'INTS_OK', False):
+        arr = arr.astype(np.int64)
     m = d['mask']
     if isinstance(m, bool):
         mask = m
@@ -461,6 +469,18 @@ def gen_cases(rng, tier, focus=()):
                 new['mask'] = a['mask']
                 a = new
             cases.append({'fam': 'bin', 'op': op, 'a': a, 'b': b, 'special': rng.random() < 0.5})
+    # --- kind core: integer x float operands of the generic classes, both orders, every binary operation ---
+    for op in BIN_OPS:
+        for order in (0, 1):
+            n = 3 if op in ('cross', 'sep') else rng.choice([2, 3])
+            ia = gen_operand(rng, (2,), (n,), 'rand', 'F')
+            ia['vals'] = [[float(rng.choice([-2, -1, 1, 2, 3])) for _ in range(n)] for _ in range(2)]
+            ia['int'] = True
+            fb = gen_operand(rng, rng.choice([(), (2,)]), (n,), 'rand', 'F')
+            fb['vals'] = [[rng.choice([0.5, -1.5, 0.25, 2.5, -0.75]) for _ in range(n)] for _ in fb['vals']]
+            fb.pop('int', None)
+            a, b = (ia, fb) if order == 0 else (fb, ia)
+            cases.append({'fam': 'bin', 'op': op, 'a': a, 'b': b, 'special': False})
     # --- unary vector operations ----------------------------------------------------
     for op in UN_OPS:
         for _ in range(40 * scale * boost('un:' + op)):
